@@ -6,6 +6,21 @@ _NOTE = ('Trusted base: the /verif shims for GLib (sim loop calibrated against G
          'the executions listed in the evidence file, nothing more.')
 
 CLAIMED = {
+    'C01': dict(
+        technique='runtime history monitor at the D-Bus boundary of two real TCPCL endpoints in a simulated network, offline conservation/order/exactly-once checker with unique payloads; wire automaton as second witness',
+        text='Exploration: a directed corpus (length classes around the negotiated segment size, MRU 1, above CHUNK_SIZE, 64 KiB / 1 MiB, tiny pipes, one-octet delivery) x scheduling policies, then hundreds (thorough: thousands) of seeded random scenarios with send calls before start, during negotiation and between arbitrary callbacks; chunking, delay and back-pressure are schedule choices. Checked: popped sequence == queued sequence, finish order, success-after-receipt by logical clock, stuck-at-quiescence. Evidence reports distinct dispatch-sequence hashes and abstract states.',
+        note=_NOTE + ' Liveness is restated as: quiescent world with an unfinished transfer is a violation; exhausted budget is inconclusive.',
+    ),
+    'C04': dict(
+        technique='online trace automaton over both decoded wire logs (independent RFC 9174 decoder) with cross-stream correlation',
+        text='Exploration: the C01 workload with and without termination requests by A, B or both at seeded scheduler steps, plus every cut-point of two base scenarios; the automaton enforces header/SESS_INIT order, allowed message set, single SESS_TERM, no START after own SESS_TERM, contiguity, START/END placement, Transfer-Length = sum, fresh ids, segment <= peer MRU, k-th ACK echoing the k-th segment with cumulative length.',
+        note=_NOTE,
+    ),
+    'C09': dict(
+        technique='runtime monitor of boundary signals, decoded wire logs, socket close events and on-close callbacks under exhaustive cut-point enumeration of termination/close/process-death requests',
+        text='Exploration with exhaustive sub-spaces: every scheduler step of 4 (thorough 5) deterministic baseline scenarios x requester {A, B, both} x action {terminate, close, peer process death}, then seeded random scenarios and cut-points; obligations (a)-(e) of the statement are decided at world quiescence only (half-open = quiescent and still open).',
+        note=_NOTE + ' A refused terminate() imposes only "session unharmed". Agent.shutdown() over several contacts is exercised in the C18 agent scenarios.',
+    ),
     'C02': dict(
         technique='runtime differential monitor: real scapy-CBOR encoder/decoder vs an independent RFC 9171 decoder/encoder/validator with a framing-preserving CBOR walker',
         text='Exploration: a directed boundary corpus plus ~12k (quick) / ~320k (thorough) seeded random bundles, each run through three differentials (values->real encoder->independent decoder and validator; real decode and byte-identical re-encode; independent encoder->real decoder, typed block data and status reports included) and a byte-for-byte comparison of the two encoders.',
